@@ -50,4 +50,21 @@ inductive TyAt (U : UCfg) (x : Var) : Blk → Option Ty → Prop
 def TypeConflict (U : UCfg) (x : Var) : Prop :=
   ∃ b t₁ t₂, t₁ ≠ t₂ ∧ TyAt U x b (some t₁) ∧ TyAt U x b (some t₂) ∧ LivePath U.cfg x b
 
+/-- reachable from the entry over real edges -/
+inductive RealReach (U : UCfg) : Blk → Prop
+  | entry : RealReach U U.entry
+  | step {p s : Blk} : RealReach U p → s ∈ U.succ p → RealReach U s
+
+/-- What `CFGBuilder.build`'s pruning establishes: every edge into a really reachable block is a real edge
+    out of a really reachable block (jumps from unreachable code back into reachable code are removed, and
+    so are dummy jumps into reachable blocks). -/
+def Pruned (U : UCfg) : Prop :=
+  ∀ p s, s ∈ U.succ p ++ U.dsucc p → RealReach U s → RealReach U p ∧ s ∈ U.succ p
+
+/-- `TyAt` along real edges only: a path the program can actually take (branch conditions ignored) -/
+inductive TyAtReal (U : UCfg) (x : Var) : Blk → Option Ty → Prop
+  | entry : TyAtReal U x U.entry (lookup x U.args)
+  | edge {p s : Blk} {o : Option Ty} : TyAtReal U x p o → s ∈ U.succ p →
+      TyAtReal U x s (exitTy (U.events p) o x)
+
 end GuppyVerif.UseDef
